@@ -58,6 +58,7 @@ struct Thr {
     void (*pending_fn)( void* ) = nullptr;   // asynchronous handler to run on this participant (signal delivery, 4.6)
     void* pending_arg = nullptr;
     int   pending_from = -1;
+    unsigned run_steps = 0;     // consecutive explored steps since this thread was last switched in
     std::function<void()> fn;
 };
 
@@ -83,6 +84,7 @@ struct Sched {
     unsigned nochange_reports = 0;
     bool verbose = false;
     bool hb_on = false;
+    unsigned slice = 300;           // steps a thread may run in the explored window before a forced (free) yield
     int in_handler = 0;             // > 0: an asynchronous handler runs; its operations are not scheduling points
     uint16_t lower[MAXT] = {};      // lower[t]: threads that must run before t is picked at a free choice
     bool any_lower = false;
@@ -280,6 +282,7 @@ void switch_to( int next )
     wake( S.thr[next] );
     if ( !fin ) {
         wait_turn( *me );
+        me->run_steps = 0;
         // woken only to run a handler on behalf of another participant: run it atomically, hand the baton straight back
         while ( me->pending_fn ) {
             void (*fn)( void* ) = me->pending_fn; void* arg = me->pending_arg; int from = me->pending_from;
@@ -498,6 +501,20 @@ void point( const void* addr, Kind k ) noexcept
         die( 2, "horizon", "step horizon %u hit by t%d at %s %p", S.horizon, me->id, kind_name( k ), addr );
     if ( S.verbose )
         fprintf( stderr, "  t%d %-7s %p\n", me->id, kind_name( k ), addr );
+    // time slice: a thread that has run this many steps without blocking, yielding or finishing is treated as if it had reported a
+    // back-off (a fair OS scheduler would have pre-empted it). Retry loops that wait for another thread's progress without calling a
+    // back-off (lazy-list validation, bucket initialisation, ...) would otherwise never let that thread run.
+    if ( ++me->run_steps > S.slice && ( runnable_mask() & ~( 1u << me->id ))) {
+        me->run_steps = 0;
+        if ( !me->changed_since_report && ++S.nochange_reports > S.livelock_limit ) {
+            char b[256]; describe_threads( b, sizeof b );
+            die( S.livelock_violation ? 1 : 2, "livelock", "livelock: t%d keeps running (%u time slices) and nobody changes any value:%s", me->id, S.nochange_reports, b );
+        }
+        // the whole slice ran without anybody else moving: going on alone repeats what was just seen and costs a deviation
+        me->changed_since_report = false;
+        decide( R_YIELD );
+        return;
+    }
     decide( R_POINT );
 }
 
@@ -774,7 +791,7 @@ int new_participant( std::function<void()> fn, bool worker )
     int id = S.nthr++;
     Thr& t = S.thr[id];
     t.id = id; t.st = T_RUNNABLE; t.worker = worker;
-    t.wait_obj = nullptr; t.join_target = -1; t.cv_timed_out = false; t.changed_since_report = true; t.at_start = false;
+    t.wait_obj = nullptr; t.join_target = -1; t.cv_timed_out = false; t.changed_since_report = true; t.at_start = false; t.run_steps = 0;
     t.fn = std::move( fn );
     if ( !t.has_pt ) {
         t.go.store( 0 );
@@ -954,6 +971,11 @@ void dfs( int sidx, cdsmc::Scenario const& sc, std::vector<Dev>& devs, int used,
     execute( sc, devs, bound, x );
     if ( x.used != used )
         die( 2, "nondeterminism", "cost of the replayed prefix is %d, expected %d", x.used, used );
+    {
+        static long trace_long = getenv( "CDSMC_TRACE_LONG" ) ? atol( getenv( "CDSMC_TRACE_LONG" )) : 0;
+        if ( trace_long > 0 && long( x.explore_steps ) > trace_long )
+            fprintf( stderr, "LONG execution: %llu explored steps, scenario %s, schedule: %s\n", (unsigned long long) x.explore_steps, sc.id.c_str(), devs_to_string( devs ).c_str());
+    }
 
     bool count = depth > acc.split_depth || stripe == 0;      // nodes above the split are executed by every stripe, counted once
     if ( count ) {
@@ -1115,6 +1137,7 @@ int main_run( int argc, char** argv, std::vector<Scenario>& all, Options const& 
         else if ( a == "--stripes" ) g_cfg.stripes = atoi( next().c_str());
         else if ( a == "--list" ) g_cfg.list = true;
         else if ( a == "--property" ) next();    // consumed by the harness (vh::take_property)
+        else if ( a == "--script" ) next();      // harness-specific configuration selector
         else if ( a == "--hb" ) g_cfg.hb = true;
         else if ( a == "-v" ) g_cfg.verbose = true;
         else { fprintf( stderr, "unknown argument %s\n", a.c_str()); return 2; }
